@@ -125,7 +125,7 @@ pub trait Check: Sync {
         16
     }
     fn max_shrink_iters(&self) -> u32 {
-        600
+        4000
     }
 }
 
@@ -174,6 +174,12 @@ fn write_replay(prop: &str, f: &Failure) -> String {
 /// Applies the known-findings filter to a verdict. Returns Some(failure) for a new violation.
 fn judge<C: Check>(c: &C, case: &C::Case, known: &[KnownFinding], stats: &mut Stats, broken: &Mutex<Option<String>>) -> Option<(String, String)> {
     let t0 = Instant::now();
+    if let Ok(dir) = std::env::var("PV_TRACE_CASES") {
+        let _ = std::fs::write(
+            format!("{dir}/pvcase-{:?}.json", std::thread::current().id()),
+            serde_json::to_string(&serde_json::json!({"case": case})).unwrap_or_default(),
+        );
+    }
     let v = match crate::util::guard(|| c.run(case, stats)) {
         Ok(v) => v,
         Err(p) => Verdict::Broken(format!("unguarded panic inside the check: {p}")),
@@ -380,7 +386,7 @@ pub fn drive<C: Check>(c: &C, tier: Tier, seed: u64) -> i32 {
     let _ = std::fs::write(format!("{edir}/{prop}.json"), serde_json::to_string_pretty(&ev).unwrap());
 
     // 4. report
-    println!(
+    crate::out!(
         "{prop} {}: {} evaluations, {} distinct non-trivial, {:.1}s, seed {seed}",
         tier.name(),
         total.evaluations,
@@ -388,28 +394,28 @@ pub fn drive<C: Check>(c: &C, tier: Tier, seed: u64) -> i32 {
         wall
     );
     for (k, v) in &total.classes {
-        println!("  class {k}: {v}");
+        crate::out!("  class {k}: {v}");
     }
     for (k, v) in &total.skipped {
-        println!("  skipped {k}: {v}");
+        crate::out!("  skipped {k}: {v}");
     }
     for (sig, (n, desc)) in &total.known {
-        println!("KNOWN-FINDING: property={prop} {sig}: {desc} (re-confirmed on {n} generated cases)");
+        crate::out!("KNOWN-FINDING: property={prop} {sig}: {desc} (re-confirmed on {n} generated cases)");
     }
     if let Some(b) = broken.lock().unwrap().as_ref() {
-        println!("HARNESS-ERROR property={prop}: {b}");
+        crate::out!("HARNESS-ERROR property={prop}: {b}");
         return 2;
     }
     if !failures.is_empty() {
         for f in &failures {
             let path = write_replay(prop, f);
-            println!("  violation [{}]: {}", f.sig, crate::util::trunc(&f.msg, 1500));
-            println!("VIOLATION property={prop} replay={path}");
+            crate::out!("  violation [{}]: {}", f.sig, crate::util::trunc(&f.msg, 1500));
+            crate::out!("VIOLATION property={prop} replay={path}");
         }
         return 1;
     }
     if total.nontrivial.len() < 2 {
-        println!("HARNESS-ERROR property={prop}: fewer than 2 non-trivial cases generated");
+        crate::out!("HARNESS-ERROR property={prop}: fewer than 2 non-trivial cases generated");
         return 2;
     }
     0
@@ -421,21 +427,21 @@ pub fn replay<C: Check>(c: &C, path: &str) -> i32 {
     let s = match std::fs::read_to_string(path) {
         Ok(s) => s,
         Err(e) => {
-            println!("cannot read {path}: {e}");
+            crate::out!("cannot read {path}: {e}");
             return 2;
         }
     };
     let v: Value = match serde_json::from_str(&s) {
         Ok(v) => v,
         Err(e) => {
-            println!("bad replay file: {e}");
+            crate::out!("bad replay file: {e}");
             return 2;
         }
     };
     let case: C::Case = match serde_json::from_value(v["case"].clone()) {
         Ok(c) => c,
         Err(e) => {
-            println!("replay case does not deserialize: {e}");
+            crate::out!("replay case does not deserialize: {e}");
             return 2;
         }
     };
@@ -444,25 +450,25 @@ pub fn replay<C: Check>(c: &C, path: &str) -> i32 {
     let known = if strict { vec![] } else { load_known(c.id()) };
     match c.run(&case, &mut st) {
         Verdict::Pass => {
-            println!("replay {path}: property held");
+            crate::out!("replay {path}: property held");
             0
         }
         Verdict::Skip(r) => {
-            println!("replay {path}: out of domain ({r})");
+            crate::out!("replay {path}: out of domain ({r})");
             0
         }
         Verdict::Fail(sig, msg) => {
             if let Some(k) = known.iter().find(|k| k.signature == sig) {
-                println!("KNOWN-FINDING: property={} {sig}: {}", c.id(), k.description);
+                crate::out!("KNOWN-FINDING: property={} {sig}: {}", c.id(), k.description);
                 0
             } else {
-                println!("  violation [{sig}]: {msg}");
-                println!("VIOLATION property={} replay={path}", c.id());
+                crate::out!("  violation [{sig}]: {msg}");
+                crate::out!("VIOLATION property={} replay={path}", c.id());
                 1
             }
         }
         Verdict::Broken(m) => {
-            println!("HARNESS-ERROR property={}: {m}", c.id());
+            crate::out!("HARNESS-ERROR property={}: {m}", c.id());
             2
         }
     }
